@@ -3,6 +3,8 @@ package rules
 import (
 	"fmt"
 	"go/token"
+	"go/types"
+	"strings"
 
 	"golang.org/x/tools/go/ssa"
 )
@@ -122,6 +124,43 @@ func c10ReadConfig(e *Env, rule string) {
 	r.Check(guards["len(patterns)==0"], rule, key+"#no-pattern-is-error", "no -i pattern is an error")
 	r.Check(guards["!found"], rule, key+"#nothing-processed-is-error", "if no file was processed the step fails ('could not process any files')")
 	r.Check(guards["matches>1"], rule, key+"#double-match-is-error", "a file matched by more than one pattern is an error")
+	// the bookkeeping behind that test: every merged file is recorded under its path with the pattern that
+	// matched it (m[f] = append(m[f], p)), in the straight-line region of the merge
+	okBook := false
+	var mergeCall ssa.Instruction
+	allInstrs(run, func(_ *ssa.Function, ins ssa.Instruction) {
+		if c, ok := ins.(ssa.CallInstruction); ok && strings.HasSuffix(callName(c.Common()), "/internal/pkg/input.Merge") {
+			mergeCall = ins
+		}
+	})
+	allInstrs(run, func(f *ssa.Function, ins ssa.Instruction) {
+		mu, ok := ins.(*ssa.MapUpdate)
+		if !ok {
+			return
+		}
+		mt, ok := mu.Map.Type().Underlying().(*types.Map)
+		if !ok {
+			return
+		}
+		if _, isSl := mt.Elem().Underlying().(*types.Slice); !isSl {
+			return
+		}
+		ap, ok := mu.Value.(*ssa.Call)
+		if !ok {
+			return
+		}
+		if bi, isB := ap.Call.Value.(*ssa.Builtin); !isB || bi.Name() != "append" || len(ap.Call.Args) != 2 {
+			return
+		}
+		lk, ok := ap.Call.Args[0].(*ssa.Lookup)
+		if !ok || !(lk.Index == mu.Key || sameLoad(lk.Index, mu.Key)) || !(lk.X == mu.Map || sameLoad(lk.X, mu.Map)) {
+			return
+		}
+		if mergeCall != nil && mergeCall.Parent() == f && (mergeCall.Block().Dominates(mu.Block()) || mu.Block().Dominates(mergeCall.Block())) {
+			okBook = true
+		}
+	})
+	r.Check(okBook, rule, key+"#double-match-bookkeeping", "every merged file is recorded with the pattern that matched it (m[file] = append(m[file], pattern) next to the merge): without the record a file matched by two patterns is merged twice and never reported")
 }
 
 // dominatedBySuccessChain: the instruction is not reachable from the failure edge of the error test.
